@@ -44,6 +44,8 @@ func runC13(c *Ctx) {
 	// RSV1 on a later fragment of a message that is being skipped surfaces from Discard
 	readerDiscardRules(c, "C13")
 	readerReadRules(c, "C13")
+	// the RSV bits the extension sees are the ones the reader's own header decoder produced
+	c01Decoder(c, "C13.decode-table", c.method("C13.decode-table", wsutil, "Reader", "readHeader"), true)
 }
 
 func c13RsvLayout(c *Ctx) {
